@@ -40,6 +40,15 @@ func CopyFile(srcPath, destPath string) (int64, error) {
 // MoveFile moves the specified file from srcPath to destPath.
 // If os.Rename() fails, try to osutil.CopyFile() and then os.Remove().
 func MoveFile(srcPath, destPath string) (err error) {
+	// Renaming a symbolic link onto the very file it points to would leave a
+	// link to itself and destroy the content: refuse, like mv(1) does.
+	if srcInfo, e := os.Lstat(srcPath); e == nil && srcInfo.Mode()&os.ModeSymlink != 0 {
+		if destInfo, e := os.Lstat(destPath); e == nil && destInfo.Mode()&os.ModeSymlink == 0 {
+			if target, e := os.Stat(srcPath); e == nil && os.SameFile(target, destInfo) {
+				return errors.New("osutil: " + srcPath + " is a symbolic link to " + destPath)
+			}
+		}
+	}
 	if err = os.Rename(srcPath, destPath); err == nil {
 		return nil
 	}
